@@ -1,5 +1,5 @@
 """Failing inputs for the genuine defects found by the static rules (triage evidence, never run by a check).
-usage: /venv/bin/python repro.py [ID ...]      (IDs: F-01 .. F-09, K-01 .. K-12)
+usage: /venv/bin/python repro.py [ID ...]      (IDs: F-01 .. F-10, K-01 .. K-12)
 Each function returns a short description of the observed misbehaviour or raises the observed exception."""
 import signal, sys, traceback
 import ciw
@@ -77,6 +77,12 @@ def F_09():  # C14/C01  class change after service (changing priority) then rene
         routing={'A': [[0.0, 1.0], [0.0, 0.0]], 'B': [[0.0, 1.0], [0.0, 0.0]]}, priority_classes={'A': 0, 'B': 1},
         class_change_matrices=cc, reneging_time_distributions={'A': [None, D(0.3)], 'B': [None, D(0.3)]})
     ciw.seed(0); ciw.Simulation(N).simulate_until_max_time(50)
+
+def F_10():  # C14/C12  stale `interrupted` flag after a slotted restart: ValueError when the customer is later unblocked
+    N = ciw.create_network(arrival_distributions=[S([0.5, 0.1, inf]), S([0.2, inf])], service_distributions=[D(5.0), D(10.0)],
+        number_of_servers=[ciw.Slotted(slots=[1.0, 2.0, 3.0, 100.0], slot_sizes=[2, 1, 2, 2], capacitated=True, preemption='resume'), 1],
+        queue_capacities=[inf, 0], routing=[[0.0, 1.0], [0.0, 0.0]])
+    ciw.Simulation(N).simulate_until_max_time(200)
 
 def K_01():  # C14  priority pre-emption decided on a node with no servers (class change while waiting)
     N = ciw.create_network(arrival_distributions={'A': [E(2)], 'B': [E(2)]}, service_distributions={'A': [E(3)], 'B': [E(3)]},
